@@ -18,6 +18,7 @@ preemptions, each exactly once, capped by count), then seeded PCT-style / random
 from __future__ import annotations
 
 import heapq
+import os
 import random as _random
 import sys
 import threading as _rt
@@ -328,7 +329,9 @@ class DetSched:
     """See the module docstring and DETSCHED.md."""
 
     def __init__(self, *, step_limit: int = 20000, wall_limit: float = 20.0, time_races: bool = False,
-                 clock0: float = 0.0, trace_lines: bool = False, trace_time: bool = True) -> None:
+                 clock0: float = 0.0, trace_lines: bool = False, trace_time: bool = True, pin_cpu: bool = True) -> None:
+        self.pin_cpu = pin_cpu  # one thread runs at a time: keeping all of them on ONE cpu makes hand-offs ~10x cheaper
+        self._affinity: Any = None
         self.step_limit = step_limit
         self.wall_limit = wall_limit
         self.time_races = time_races
@@ -384,11 +387,25 @@ class DetSched:
             mon.register_callback(self._tool, mon.events.LINE, self._on_line)
             for c in self._codes:
                 mon.set_local_events(self._tool, c, mon.events.LINE)
+        if self.pin_cpu and hasattr(os, "sched_setaffinity"):
+            try:
+                aff = os.sched_getaffinity(0)  # of the calling thread; threads started from here inherit it
+                if len(aff) > 1:
+                    os.sched_setaffinity(0, {_idlest_cpu(aff)})
+                    self._affinity = aff
+            except OSError:
+                self._affinity = None
         self._active = True
         return self
 
     def __exit__(self, *a: Any) -> None:
         self._active = False
+        if self._affinity is not None:
+            try:
+                os.sched_setaffinity(0, self._affinity)
+            except OSError:
+                pass
+            self._affinity = None
         if self._tool is not None:
             mon = sys.monitoring
             for c in self._codes:
@@ -556,6 +573,27 @@ class DetSched:
             est = max(est, len(chooser.log))
             yield run
         self.stats["random_runs"] = random
+
+
+def _idlest_cpu(aff: Any) -> int:
+    """The allowed cpu that was most idle over the last ~30 ms (falls back to a pid-based choice)."""
+    def snap() -> dict[int, int]:
+        out = {}
+        with open("/proc/stat") as f:
+            for line in f:
+                if line.startswith("cpu") and line[3].isdigit():
+                    p = line.split()
+                    out[int(p[0][3:])] = int(p[4]) + int(p[5])  # idle + iowait
+        return out
+
+    cpus = sorted(aff)
+    try:
+        a = snap()
+        _rtime.sleep(0.03)
+        b = snap()
+        return max(cpus, key=lambda c: (b.get(c, 0) - a.get(c, 0), -c))
+    except (OSError, ValueError, IndexError):
+        return cpus[os.getpid() % len(cpus)]
 
 
 def _code_objects(x: Any) -> list[types.CodeType]:
